@@ -113,3 +113,48 @@ def build(m):
                        ('forall(lambda i: parent.children[i] == old(parent.children)[i], 0, len(old(parent.children)) - 1)', 'C16'),
                    ],
                    modifies=['F:ParseToken.children'], prop=P))
+
+
+def build2(m):
+    """tokenize: global-state discipline (C11) and the buffer invariant (C16)."""
+    SPT = TRef('Token')
+    MATCH = TRef('Match')
+    m.classes.setdefault('Match', {})
+    m.classes.setdefault('Token', {'line_number': INT})
+    m.globals['html._charref'] = INT
+    m.globals['core_tokens._code_matches'] = TList(MATCH)
+    ns = m.namespaces[MOD]
+    ns['html'] = ('module', 'html')
+    ns['core_tokens'] = ('module', 'mistletoe.core_tokens')
+    ns['_markdown_charref'] = ('const', mk_int(1))
+    ns['_stdlib_charref'] = ('const', mk_int(0))
+    ns['find_tokens'] = ('func', MOD + ':find_tokens')
+    ns['make_tokens'] = ('func', MOD + ':make_tokens')
+    m.namespaces.setdefault('html', {})['_charref'] = ('global', 'html._charref')
+    m.namespaces.setdefault('mistletoe.core_tokens', {})['_code_matches'] = ('global', 'core_tokens._code_matches')
+    m.globals.setdefault('INLINE_PHASE', INT)
+    SORTED = 'forall(lambda i: result[i].start <= result[i + 1].start, 0, len(result) - 1)'
+    m.add(Contract(MOD + ':find_tokens', [('string', STR), ('token_types', TList(SPANCLS)), ('fallback_token', SPANCLS)],
+                   returns=TList(PT), trusted=True, may_raise=['CustomTokenError'],
+                   ensures=[SORTED,
+                            'forall(lambda i: PT_OK(result[i]) and result[i].rank == i and len(result[i].children) == 0 '
+                            'and result[i].end <= len(string), 0, len(result))',
+                            'ALL_KIDS_OK()', 'RANKED()'],
+                   modifies=['G:core_tokens._code_matches', 'F:ParseToken.children'],
+                   note='candidate collection: sorted() is stable (A8); match offsets of the (assumed) finder protocol '
+                        'lie within the string; rank is the ghost position in the sorted list'))
+    m.add(Contract(MOD + ':make_tokens', [('tokens', TList(PT)), ('start', INT), ('end', INT), ('string', STR),
+                                          ('fallback_token', SPANCLS)], returns=TList(SPT), trusted=True,
+                   may_raise=['CustomTokenError'], modifies=['G:INLINE_PHASE'],
+                   requires=['forall(lambda i: tokens[i].end <= tokens[i + 1].start, 0, len(tokens) - 1)',
+                             'forall(lambda i: start <= tokens[i].start and tokens[i].end <= end, 0, len(tokens))'],
+                   note='trusted at this call site; its own body is verified separately (make_tokens#tiling)'))
+    STATE_POST = [('html._charref == 0', 'C11'), ('len(core_tokens._code_matches) == 0', 'C11')]
+    m.add(Contract(MOD + ':tokenize#state', [('string', STR), ('token_types', TList(SPANCLS))], returns=TList(SPT),
+                   requires=['len(token_types) >= 1'], assume_callee_pre=True,
+                   ensures=list(STATE_POST), ensures_exc=list(STATE_POST),
+                   modifies=['G:html._charref', 'G:core_tokens._code_matches', 'G:INLINE_PHASE', 'F:ParseToken.children'],
+                   allow_exc=['CustomTokenError'],
+                   body_types={'token_buffer': TList(PT)},
+                   loops={0: Loop(invariant=['html._charref == 1'])},
+                   prop=['C11']))
